@@ -189,6 +189,8 @@ class C14(Harness):
             TB = W.load(PANEL + ".reduce").Tabularizer
             t = TB().fit(X)
             r = t.transform(X)
+            if not hasattr(r, "to_numpy"):  # a 3-D array comes back as a plain 2-D array
+                return {"table": [[S(v) for v in row] for row in r.tolist()]}
             back = t.inverse_transform(r.to_numpy() if not sym else r.to_numpy()) if not sym else None
             o = {"table": [[S(v) for v in row] for row in r.to_numpy().tolist()], "cols": [str(c) for c in r.columns], "index": [S(v) for v in r.index]}
             if back is not None:
